@@ -7,5 +7,13 @@ func main() {
 	xlate.Main("C09",
 		xlate.Spec{Pkg: "proxy/bulk", Name: "newStoresWriteStatus"},
 		xlate.Spec{Pkg: "proxy/bulk", Recv: "storesWriteStatus", Name: "getShard"},
+		// shard.Bulk: a replica already written is skipped; a replica is marked written only when its call returned no error
+		xlate.Spec{Pkg: "proxy/bulk", Recv: "shard", Name: "Bulk", As: "replicaSkip",
+			Stmts: []string{"if len(writtenReplicas) > 0 && writtenReplicas[replicaIdx]"}},
+		xlate.Spec{Pkg: "proxy/bulk", Recv: "shard", Name: "Bulk", As: "replicaMark", Stmts: []string{"if hostErr"},
+			Result: "writtenReplicas", Ignore: []string{"metric.BulkErrors.Add", "verifhook.Point"}},
+		// sendBulkToStores: shards are visited in the shuffled order until one Bulk call returns no error
+		xlate.Spec{Pkg: "proxy/bulk", Recv: "SeqDBClient", Name: "sendBulkToStores", As: "visitLoop",
+			Stmts: []string{"for n := 0; n < len(shards); n++"}, Oracles: []string{"shard.Bulk", "bulk.isOpenCircuitBreakerError"}},
 	)
 }
